@@ -789,7 +789,7 @@ func c13Record(t *testing.T) {
 		w.runWalks()
 	}
 	// BloomTracker through three growth steps: 10k + 40k + 160k (+3) inserts
-	c13DriveTracker(r, "bloom", vEnvInt("C13_BLOOM_INSERTS", 3+MinBloomCapacity*(1+BloomGrowthFactor+BloomGrowthFactor*BloomGrowthFactor)+500), 250)
+	c13DriveTracker(r, "bloom", vEnvInt("C13_BLOOM_INSERTS", 3+MinBloomCapacity*(1+BloomGrowthFactor+BloomGrowthFactor*BloomGrowthFactor)+500), vEnvInt("C13_EVERY", 400))
 	c13DriveTracker(r, "map", 3000, 20)
 }
 
